@@ -3,4 +3,19 @@ pub mod std_specs {
     use vstd::prelude::*;
     /// core: `impl<T> From<T> for T` is the identity
     pub assume_specification<T>[<T as From<T>>::from](t: T) -> (r: T) ensures r == t;
+    #[verifier::external_trait_specification]
+    pub trait ExFromStr: Sized {
+        type ExternalTraitSpecificationFor: ::std::str::FromStr;
+        type Err;
+        fn from_str(s: &str) -> ::std::result::Result<Self, Self::Err>;
+    }
+    pub assume_specification<F>[str::parse](s: &str) -> (r: ::std::result::Result<F, <F as ::std::str::FromStr>::Err>)
+        where F: ::std::str::FromStr,
+        ensures call_ensures(F::from_str, (s,), r);
+    pub assume_specification<T, F>[::std::option::Option::<T>::or_else](o: ::std::option::Option<T>, f: F) -> (r: ::std::option::Option<T>)
+        where F: ::std::ops::FnOnce() -> ::std::option::Option<T> + ::std::marker::Destruct, T: ::std::marker::Destruct,
+        requires o is None ==> call_requires(f, ()),
+        ensures o is Some ==> r == o, o is None ==> call_ensures(f, (), r);
+    pub assume_specification<'a>[<String as PartialEq<&'a str>>::eq](a: &String, b: &&str) -> (r: bool) ensures r == (a@ == b@);
+    pub assume_specification[String::as_bytes](s: &String) -> (r: &[u8]) ensures r@ == crate::spec::utf8(s@);
 }
